@@ -70,7 +70,9 @@ class Run:
             return
         results, dt = verify(modules, quals, jobs=jobs)
         for name, _b, text in reg.z3axioms:
-            self.trust("axiom %s: %s" % (name, text))
+            scope = reg.z3axiom_scope.get(name)
+            if scope is None or scope & set(quals):
+                self.trust("axiom %s: %s" % (name, text))
         for r in results:
             fn = {"function": r["qualname"], "file": r["file"], "source_sha256_16": r["sha"], "paths": r["paths"],
                   "status": r["status"], "dropped": r["dropped"], "notes": r["notes"],
